@@ -13,7 +13,7 @@ import re
 ZSER = "crates/dns-types/src/zones/serialise.rs"
 
 TRUSTED = TRUSTED_COMMON + [
-    "T1 / T2 (axiom_abs_round_trip, axiom_rel_round_trip): DomainName::from_dotted_string(to_dotted_string(n)) == n and from_relative_dotted_string(apex, dotted(front labels)) == n for names whose labels are ASCII and hold no dot - T1 is proved in unit names_text up to the extensionality of Label / DomainName values (same octets, same value); T2 (the relative form, built with format!) is assumed",
+    "T1 / T2 (axiom_abs_round_trip, axiom_rel_round_trip): DomainName::from_dotted_string(to_dotted_string(n)) == n and from_relative_dotted_string(apex, dotted(front labels)) == n for names whose labels are ASCII and hold no dot - both are proved in unit names_text at the level of label octets (lemma_dotted_text_reads_back, lemma_relative_text_reads_back); what the axioms add is the extensionality of Label / DomainName values (same octets, same value)",
     "`domain_str.bytes().collect::<Bytes>()` as a shim: for ASCII text the octets are the characters; serialise_octets: contract assumed (proved in unit zone_text); Zone::get_apex / is_authoritative, DomainName::is_root / is_subdomain_of / == : contracts assumed (units names, zone_build)",
     "axiom_dn_ext: two DomainName values with the same labels and recorded length are equal (what the derived PartialEq compares)",
     "`for octet in &label.octets`: iteration over the label's octets as a slice (shim_label_octets)",
